@@ -105,6 +105,18 @@ CHECKS = {
   note="Trusted: py/erase.py's definition of 'annotation'.",
   tech="differential check of both annotate modes over TLC-enumerated programs + corpus, judged by TLC",
   ref="DESIGN.md 9/C11"),
+ "C03": dict(
+  text="spec/Pipeline.tla models the pipeline as a stage machine (parse all, context, check all, generate all; outputs XOR "
+       "diagnostics; termination under fairness) and is model-checked (R1). TLC enumerates adversarial input families from "
+       "spec/PipelineInputs.tla (token soup, all inheritance digraphs on 3 classes, nesting / length / empty-pattern / string / "
+       "encoding shapes) (R2); these, the programs of the other families, every repository sample, seeded single and double "
+       "token mutants and random text run through the real pipeline in isolated worker processes with the guarded stage-event "
+       "hooks and step counters; spec/PipelineTrace.tla accepts a recorded run iff it is a behaviour of Pipeline ending in "
+       "Done / Reported within the polynomial step bound. A panic, abort or hang has no accepting continuation.",
+  note="TLA+ does not model Rust panics: the spec supplies acceptance, the step bound and the input families; the crash is "
+       "observed on the worker process (bisected to the single input). Inputs <= 4 KB. Hang back-stop 60 s per input.",
+  tech="TLA+ stage machine; TLC trace validation of recorded stage-event traces from isolated workers over TLC-enumerated adversarial inputs",
+  ref="DESIGN.md 9/C03"),
 }
 
 PENDING_REASON = "check not built yet in this snapshot (work in progress; see DESIGN.md section 13)"
